@@ -226,6 +226,35 @@ func (a *recAppenderV2) Rollback() error {
 var _ = exemplar.Exemplar{}
 var _ = metadata.Metadata{}
 
+// causeHandler records the error texts of "Scrape failed" / "Append failed" log lines as evidence.
+type causeHandler struct {
+	c  *core.Case
+	re *regexp.Regexp
+}
+
+func (h *causeHandler) Enabled(context.Context, slog.Level) bool { return true }
+func (h *causeHandler) WithAttrs([]slog.Attr) slog.Handler        { return h }
+func (h *causeHandler) WithGroup(string) slog.Handler             { return h }
+func (h *causeHandler) Handle(_ context.Context, r slog.Record) error {
+	if r.Message != "Scrape failed" && r.Message != "Append failed" && r.Message != "Appending scrape report failed" && r.Message != "Scrape commit failed" {
+		return nil
+	}
+	r.Attrs(func(a slog.Attr) bool {
+		if a.Key == "err" {
+			txt := a.Value.String()
+			if i := strings.Index(txt, "\": "); i >= 0 {
+				txt = txt[i+3:]
+			}
+			if len(txt) > 90 {
+				txt = txt[:90]
+			}
+			h.c.Seen("failure_causes_logged", r.Message+": "+h.re.ReplaceAllString(txt, "N"))
+		}
+		return true
+	})
+	return nil
+}
+
 // ---------------------------------------------------------------- configs (generation + reference)
 
 type relabelRule struct {
@@ -846,7 +875,8 @@ func run(c *core.Case) {
 	} else {
 		app = &recAppendable{rec: rec, inner: db}
 	}
-	mlog := tsdbx.NopLogger()
+	// the manager's log is only used to label failure causes in the evidence (never in a verdict)
+	mlog := slog.New(&causeHandler{c: c, re: regexp.MustCompile(`[0-9]{2,}`)})
 	if c.Verbose {
 		mlog = slog.New(slog.NewTextHandler(os.Stderr, &slog.HandlerOptions{Level: slog.LevelDebug}))
 	}
@@ -930,9 +960,22 @@ func run(c *core.Case) {
 	rec.mu.Lock()
 	sessions := rec.sessions
 	rec.mu.Unlock()
+	digits := regexp.MustCompile(`[0-9.e+-]{3,}`)
 	for _, s := range sessions {
 		if len(s.samples) == 0 {
 			continue
+		}
+		for _, x := range s.samples {
+			if x.err != nil {
+				what := "normal"
+				if value.IsStaleNaN(x.v) {
+					what = "stale-marker"
+				}
+				if isReport(x.lset.Get(labels.MetricName)) {
+					what = "report"
+				}
+				c.Seen("append_errors", fmt.Sprintf("%s committed=%v: %s", what, s.committed, digits.ReplaceAllString(x.err.Error(), "N")))
+			}
 		}
 		tid := s.samples[0].lset.Get("tid")
 		for _, x := range s.samples {
@@ -1235,6 +1278,7 @@ func analyse(c *core.Case, t *target, sess []*session, anyRemoved bool) stats {
 			continue
 		}
 		failed := up == 0
+		unknownCause := false
 		switch {
 		case m.outcome == vFail && !failed:
 			c.Violatef(kUpOnFailure, "target %s scrape %d (%s: %s): the scrape must fail but up=1; body:\n%s", t.id, k-1, resp.kind, m.why, bodyOf(resp))
@@ -1242,7 +1286,9 @@ func analyse(c *core.Case, t *target, sess []*session, anyRemoved bool) stats {
 		case m.outcome == vOK && failed:
 			st.tolerated++
 			c.Logf("target %s response %d: unexpected failure; body:\n%s", t.id, as.idx, bodyOf(resp))
-			m.fetchFail, m.partial = true, false
+			// cause unknown (timeout while connecting, while reading, ...): it is not known how
+			// much of the body was processed, so the failure is treated as possibly partial
+			m.fetchFail, m.partial, unknownCause = true, true, true
 			c.Seen("scrape_kinds", "unexpected-failure(tolerated)")
 		}
 		st.scrapes++
@@ -1382,7 +1428,9 @@ func analyse(c *core.Case, t *target, sess []*session, anyRemoved bool) stats {
 					nextTracked[s] = true
 				}
 			}
-			if unmarked > 0 && partialOnly {
+			if unmarked > 0 && partialOnly && unknownCause {
+				c.Count("unmarked_series_after_failure_of_unknown_cause(accepted)", int64(unmarked))
+			} else if unmarked > 0 && partialOnly {
 				c.Violatef(kStalePartial, "target %s scrape %d at %d failed after part of the body was processed (%s: %s): %d previously stored series that are re-exposed in the failing body got no staleness marker although none of the body's samples was committed", t.id, k-1, sc.t, resp.kind, m.why, unmarked)
 			}
 			if len(tracked) > 0 && unmarked < len(tracked) {
@@ -1392,6 +1440,13 @@ func analyse(c *core.Case, t *target, sess []*session, anyRemoved bool) stats {
 				// series first seen in the failing body may have entered the tracking state
 				for s := range exposedNow {
 					if !nextTracked[s] {
+						nextMaybe[s] = true
+					}
+				}
+			}
+			if unknownCause {
+				for s := range maybe {
+					if !nextTracked[s] && !gotStale[s] {
 						nextMaybe[s] = true
 					}
 				}
